@@ -51,7 +51,12 @@ func genValue(c *sim.Ctx, depth int) interface{} {
 		}
 	case 1:
 		if depth < 2 {
-			return []interface{}{genConst(c), genValue(c, depth+1)}
+			// arrays are sets to the matcher: no duplicate scalar members (as the properties state)
+			a, b := genConst(c), genValue(c, depth+1)
+			if ref.Canon(a) == ref.Canon(b) {
+				return []interface{}{a}
+			}
+			return []interface{}{a, b}
 		}
 	case 2:
 		if depth < 2 {
